@@ -43,8 +43,16 @@ const (
 
 // addrSig classifies "the address of owner resolved to / a request for owner arrived at got" at a node that
 // was given cfgPeers in cfg.Peers.
-func addrSig(owner, got string, cfgPeers []string) string {
-	if got == owner+":8081" {
+//
+// The two alias signatures are keyed by the root cause, not by the look of the wrong answer: getPeerAddr matches a
+// CONFIGURED entry "<id>:8081".  An answer "<id>:8081" that is not an entry of this node's cfg.Peers (the other
+// member was learnt through AddPeer too, or is no member at all) cannot come from that match: it has another cause
+// and reports under sigAddrOther (never listed) - while KF-C17-2 is listed it would otherwise be swallowed.
+// self is the resolving node's own id: p.peers is documented as "list of peer addresses (including self)", and
+// NewPeerPool sorts cfg.Peers + self in place when the caller's slice has spare capacity, so the node's own id can be
+// one of the entries the match runs over.
+func addrSig(owner, got, self string, cfgPeers []string) string {
+	if got == owner+":8081" && (contains(cfgPeers, got) || got == self) {
 		if contains(cfgPeers, owner) {
 			return sigAliasListed
 		}
@@ -448,7 +456,7 @@ func (c *relCluster) routed(rt fataler, desc, kind string, before, after []int64
 	}
 	for i := range c.ids { // first: a request that arrived where it should not
 		if got := after[i] - before[i]; c.alive[i] && got > want(i) {
-			return vstat.Fail(rt, addrSig(target, c.ids[i], c.cfgd[sender]), "%s: the %s request of node %q meant for %q arrived at node %q (%d requests, want %d); node %q was configured with cfg.Peers=%s then AddPeer %s",
+			return vstat.Fail(rt, addrSig(target, c.ids[i], c.ids[sender], c.cfgd[sender]), "%s: the %s request of node %q meant for %q arrived at node %q (%d requests, want %d); node %q was configured with cfg.Peers=%s then AddPeer %s",
 				desc, kind, c.ids[sender], target, c.ids[i], got, want(i), c.ids[sender], q(c.cfgd[sender]), q(c.added[sender]))
 		}
 	}
@@ -460,7 +468,7 @@ func (c *relCluster) routed(rt fataler, desc, kind string, before, after []int64
 		res := c.pools[sender].VerifPeerAddr(target)
 		sig := "C17/e2e/request-never-reached-owner"
 		if res != target {
-			sig = addrSig(target, res, c.cfgd[sender])
+			sig = addrSig(target, res, c.ids[sender], c.cfgd[sender])
 		}
 		return vstat.Fail(rt, sig, "%s: the %s request of node %q meant for the live node %q never arrived there (node %q resolves %q to the address %q); cfg.Peers=%s then AddPeer %s",
 			desc, kind, c.ids[sender], target, c.ids[sender], target, res, q(c.cfgd[sender]), q(c.added[sender]))
@@ -699,7 +707,7 @@ func TestPropEndToEndRelatedAddrs(t *testing.T) {
 				}
 				for k := range ids {
 					if c.alive[k] && ha.status[k] != hb.status[k] {
-						return vstat.Fail(rt, addrSig(j, ids[k], c.cfgd[i]), "%s: node %q probed the stopped node %q and the probe was answered by node %q", desc, ids[i], j, ids[k])
+						return vstat.Fail(rt, addrSig(j, ids[k], ids[i], c.cfgd[i]), "%s: node %q probed the stopped node %q and the probe was answered by node %q", desc, ids[i], j, ids[k])
 					}
 				}
 				return false
@@ -735,7 +743,7 @@ func TestPropEndToEndRelatedAddrs(t *testing.T) {
 					continue
 				}
 				if ai := c.index(m + ":8081"); ai >= 0 && c.alive[ai] == got {
-					return vstat.Fail(rt, addrSig(m, m+":8081", c.cfgd[i]), "%s: node %q considers %q healthy=%v (it is alive=%v); that is the state of the other member %q", desc, ids[i], m, got, c.alive[k], m+":8081")
+					return vstat.Fail(rt, addrSig(m, m+":8081", ids[i], c.cfgd[i]), "%s: node %q considers %q healthy=%v (it is alive=%v); that is the state of the other member %q", desc, ids[i], m, got, c.alive[k], m+":8081")
 				}
 				if !final {
 					return vstat.Fail(rt, "C17/e2e/unhealthy-before-threshold", "%s: node %q considers %q unhealthy before three consecutive failed probes of it", desc, ids[i], m)
@@ -845,7 +853,7 @@ func TestPropEndToEndRelatedAddrs(t *testing.T) {
 			}
 			for _, m := range ids {
 				if got := p.VerifPeerAddr(m); got != m {
-					if vstat.Fail(rt, addrSig(m, got, c.cfgd[i]), "node %q (cfg.Peers=%s then AddPeer %s) resolves member %q to the address %q", ids[i], q(c.cfgd[i]), q(c.added[i]), m, got) {
+					if vstat.Fail(rt, addrSig(m, got, ids[i], c.cfgd[i]), "node %q (cfg.Peers=%s then AddPeer %s) resolves member %q to the address %q", ids[i], q(c.cfgd[i]), q(c.added[i]), m, got) {
 						return
 					}
 				}
@@ -983,7 +991,7 @@ func TestPropAddressResolution(t *testing.T) {
 			}
 			for _, m := range ids {
 				if got := p.VerifPeerAddr(m); got != m {
-					if vstat.Fail(rt, addrSig(m, got, list[:k]), "node %q (cfg.Peers=%s then AddPeer %s) resolves member %q to the address %q; peer set %s", ids[self], q(list[:k]), q(list[k:]), m, got, q(ids)) {
+					if vstat.Fail(rt, addrSig(m, got, ids[self], list[:k]), "node %q (cfg.Peers=%s then AddPeer %s) resolves member %q to the address %q; peer set %s", ids[self], q(list[:k]), q(list[k:]), m, got, q(ids)) {
 						return
 					}
 				}
